@@ -60,13 +60,15 @@ def suites(tier: str, seed: int) -> List[Suite]:
         plan = [("valid", "small", 6), ("valid", "medium", 12), ("valid", "deep", 4), ("errors", "small", 10),
                 ("errors", "medium", 10), ("f13", "small", 2), ("f15", "small", 2),
                 ("link-sibling-rel", "small", 2), ("link-sibling-abs", "small", 1), ("link-sibling-encoded", "small", 1),
-                ("link-sibling-symlink", "small", 2), ("link-sibling-dir-symlink", "medium", 1)]
+                ("link-sibling-symlink", "small", 2), ("link-sibling-dir-symlink", "medium", 1),
+                ("link-casetwin-rel", "small", 2), ("link-casetwin-symlink", "small", 1)]
         na, ne = 40, 12
     else:
         plan = [("valid", "small", 150), ("valid", "medium", 500), ("valid", "deep", 150), ("errors", "small", 300),
                 ("errors", "medium", 500), ("errors", "deep", 100), ("f13", "small", 20), ("f15", "small", 20),
                 ("link-sibling-rel", "medium", 40), ("link-sibling-abs", "medium", 30), ("link-sibling-encoded", "medium", 30),
-                ("link-sibling-symlink", "medium", 40), ("link-sibling-dir-symlink", "medium", 30)]
+                ("link-sibling-symlink", "medium", 40), ("link-sibling-dir-symlink", "medium", 30),
+                ("link-casetwin-rel", "medium", 40), ("link-casetwin-symlink", "medium", 30)]
         na, ne = 1500, 400
     site.cases = SC.gen_site_cases("C16", seed, plan)
     alone.cases = SC.gen_alone_cases(seed, na, ne)
